@@ -88,6 +88,8 @@ func (v Value) render(k Kind) string {
 		return fmt.Sprint(int64(v.B))
 	case k.Integer():
 		return fmt.Sprint(v.B)
+	case k.Float() && v.S == nanAny:
+		return "NaN(any payload)"
 	case k == KFloat32:
 		return fmt.Sprintf("f32(%#x=%v)", uint32(v.B), math.Float32frombits(uint32(v.B)))
 	case k == KFloat64:
